@@ -451,16 +451,16 @@ func (a pendState) eq(b pendState) bool {
 }
 
 type PendRule struct {
-	Trig     func(in ssa.Instruction) bool
-	Disch    func(in ssa.Instruction) bool          // certainly discharges (non-defer instr)
-	DeferD   func(d *ssa.Defer) bool                // deferred call certainly discharges when run
-	Forbid   func(in ssa.Instruction) bool          // must not execute while pending (may be nil)
-	SkipEdge func(from, to *ssa.BasicBlock) bool    // edges exempted from the rule (may be nil)
-	ExitOK   func(ret ssa.Instruction) bool         // exits that need no discharge (may be nil)
-	PhiOK    func(phiBlock, pred, succ *ssa.BasicBlock) bool // path-sensitive feasibility through phi-testing blocks (may be nil)
-	StartPending bool                               // the rule is pending at function entry (used for callee summaries)
-	AtExit   bool                                   // require discharge before every normal return
-	OnPanic  bool                                   // also require at Panic exits
+	Trig         func(in ssa.Instruction) bool
+	Disch        func(in ssa.Instruction) bool                   // certainly discharges (non-defer instr)
+	DeferD       func(d *ssa.Defer) bool                         // deferred call certainly discharges when run
+	Forbid       func(in ssa.Instruction) bool                   // must not execute while pending (may be nil)
+	SkipEdge     func(from, to *ssa.BasicBlock) bool             // edges exempted from the rule (may be nil)
+	ExitOK       func(ret ssa.Instruction) bool                  // exits that need no discharge (may be nil)
+	PhiOK        func(phiBlock, pred, succ *ssa.BasicBlock) bool // path-sensitive feasibility through phi-testing blocks (may be nil)
+	StartPending bool                                            // the rule is pending at function entry (used for callee summaries)
+	AtExit       bool                                            // require discharge before every normal return
+	OnPanic      bool                                            // also require at Panic exits
 }
 
 // RunPend evaluates a pending-rule on f and returns violations.
